@@ -7,21 +7,36 @@ V = os.path.dirname(os.path.dirname(os.path.abspath(__file__)))
 sys.path.insert(0, os.path.join(V, "rules"))
 os.environ["VERIF_NO_INLINE"] = "1"
 import facts
+import inline
 paths = set()
 direct = set()
+callers = {}
+vis = {}
+import re
 for cfg in ("A", "B", "C"):
     F = facts.load(cfg)
     for name, c in F.crates.items():
         for f in c.j["fns"]:
             if f.get("kind") in ("Fn", "AssocFn"):
                 paths.add(f["path"])
+            if f.get("kind") in ("Fn", "AssocFn"):
+                vis[f["path"]] = f.get("vis")
+            me = re.sub(r"(::\{closure#\d+\})+$", "", f["path"])
             for bb in (f.get("body") or {}).get("blocks", []):
                 t = bb["term"]
                 fn = ((t.get("func") or {}).get("k") or {}).get("fn") or {}
                 r = (fn.get("resolved") or {}).get("path", "")
+                if t.get("k") == "call":
+                    for cp in {r, fn.get("path", "")}:
+                        cp = inline._strip(cp) if cp else cp
+                        if cp and cp != me:
+                            callers.setdefault(cp, set()).add(me)
                 if t.get("k") == "call" and fn.get("path", "").startswith("std::ops::Fn") and "{closure" in r:
                     direct.add(r)
 json.dump({"_doc": "function paths of the confirmed tree (see rules/inline.py)", "functions": sorted(paths),
-           "direct_closures": sorted(direct)},
+           "direct_closures": sorted(direct),
+           "sole_caller": {p: sorted(c)[0] for p, c in sorted(callers.items())
+                           if p in paths and len(c) == 1 and not p.startswith("<") and sorted(c)[0] in paths
+                           and not sorted(c)[0].startswith("<") and vis.get(p) not in ("pub", "public")}},
           open(os.path.join(V, "spec", "fn_baseline.json"), "w"), indent=0)
 print(len(paths), "functions")
